@@ -59,6 +59,31 @@ CHECKS["C01"] = dict(
          "(fail-closed outside its pure subset); str concatenation semantics",
     design="DESIGN.md section 3 C01", partial=False)
 
+CHECKS["C05"] = dict(
+    technique="extracted SGR reader table + from_str fold transition function (abstract interpretation, constant-propagation domain) composed with the writer model over the whole attribute space; regular-language inclusion on the tokenizer patterns",
+    text="token_type is abstractly interpreted for every code 0..107 and for parameter lists (singles, all pairs, a;b;a "
+         "triples; thorough all triples) and compared with an independent ECMA-48 SGR machine; the token loop of from_str is "
+         "extracted as a transition function (update tokens change exactly their keys, text emits one run with the non-None "
+         "attributes via parse_args); for every attribute set writer->tokens->reader->fold returns one run with exactly "
+         "the set's truthy attributes and a fully reset reader state, so runs compose; inverse tables agree; both tokenizer "
+         "patterns are total (DOTALL), tile their input, and recognise (DFA language inclusion) every writer sequence and "
+         "every ordinary numeric CSI as one token; CSI wins ties; parse() alternates text and updates in order.",
+    note="trusted: ECMA-48 subset in sa/sgr.py, re.match semantics, the folder/evaluator of sa/ (fail-closed); the "
+         "composition of the tokenizer regexes with the model is argued from their partition shape, not executed",
+    design="DESIGN.md section 3 C05")
+CHECKS["C17"] = dict(
+    technique="exception-escape analysis by abstract interpretation of token_type / from_str fold / parse_args over every token shape of both tokenizer patterns; regular-language inclusion for tokenizer and fallback patterns; structural try/except rules",
+    text="Every token shape either tokenizer pattern can produce (all final bytes of both command classes, numeric/empty/"
+         "non-numeric parameter strings, only the groups the producing pattern defines) is pushed through token_type: the "
+         "outcome must be updates, None or ValueError; every update the reader can emit is accepted by the from_str fold and "
+         "parse_args (which run outside the try); parse() lets only ValueError out, from_str catches it and falls back to "
+         "remove_ansi(s); the tokenizer neither raises nor applies int() to non-digits; the fallback is re.sub(p,'',s) with "
+         "nothing in the count slot, its language lies within ECMA-48 CSI and contains every numeric CSI; without ESC[ the "
+         "input comes back as FmtStr(Chunk(s)).",
+    note="trusted: re/int/str primitives; only the implicit exceptions modelled by the evaluator (dict lookup, int(), "
+         "calls with wrong arity) are considered",
+    design="DESIGN.md section 3 C17")
+
 NOT_APPLICABLE = [
     ("C06", "slicing/normalisation is integer arithmetic over run layouts; no structural clause is a necessary condition visible in the code shape"),
     ("C09", "five-way overlap arithmetic across runs; a sound static decision needs inductive integer invariants (solver family)"),
